@@ -518,11 +518,62 @@ def check_clear(res, facts):
                 rule.bad(key, "checked constructor does not test %s" % sorted(need - set(names)), fn.loc)
 
 
+def check_cofone(res, facts):
+    """cofactor_is_one(): limb 0 is compared with 1 and *every* further limb with zero"""
+    rule = res.rule("R-COFONE", "cofactor_is_one inspects all limbs of COFACTOR: limb 0 == 1, all limbs from index 1 are zero", 1)
+    for fn in facts.fns(unit="ws", crate="ark_ec"):
+        if fn.name != "cofactor_is_one" or not fn.default_of:
+            continue
+        key = "ark_ec|CurveConfig::cofactor_is_one"
+        calls = [(bb, t) for bb, t in fn.calls()]
+        names = [t["f"].get("name") for _, t in calls]
+        # position bookkeeping along the (single) iterator chain feeding `all`
+        alls = [t for _, t in calls if t["f"].get("name") == "all"]
+        if not alls:
+            rule.bad(key, "no check over the remaining limbs (all(is_zero))", fn.loc)
+            continue
+        dep = DF.Dep(fn)
+        l = op_local(alls[0]["args"][0])
+        chain = dep.calls_in_slice([l]) if l is not None else []
+        pos = 0
+        problems = []
+        for _, c in chain:
+            n = c["f"].get("name")
+            if n == "next":
+                pos += 1
+            elif n == "skip":
+                k = DF.direct_const(fn, c["args"][1]) if len(c["args"]) > 1 else None
+                if k is None or "v" not in k:
+                    problems.append("skip() with a non-constant count")
+                else:
+                    pos += k["v"]
+            elif n in ("step_by", "take", "rev", "filter", "skip_while", "take_while"):
+                problems.append("iterator adaptor %s() hides limbs from the zero test" % n)
+        if pos != 1:
+            problems.append("the zero test starts at limb %d instead of limb 1 (limb%s never inspected)" % (pos, "s 1..%d" % (pos - 1) if pos > 2 else (" 1" if pos == 2 else " 0 counted twice")))
+        # limb 0 == 1
+        eq1 = False
+        for bi, si, s in fn.stmts():
+            r = s.get("r")
+            if r and r["k"] == "bin" and r["op"] == "Eq" and any("k" in o and o["k"].get("v") == 1 for o in (r["a"], r["b"])):
+                eq1 = True
+        for _, c in calls:
+            if c["f"].get("name") in ("eq", "ne"):
+                for a in c["args"]:
+                    k = DF.direct_const(fn, a)
+                    if k is not None and (k.get("v") == 1 or any(d == "lit:1" for d in k.get("pdefs", []))):
+                        eq1 = True
+        if not eq1:
+            problems.append("limb 0 is not compared with 1")
+        (rule.bad if problems else rule.ok)(key, "; ".join(problems) if problems else "limb 0 == 1 and all limbs from 1 are zero", fn.loc)
+
+
 def run(ctx, res):
     facts = ctx.facts(UNITS)
     res.analysed = facts.stats()
     reg = Registry(facts, UNITS)
     check_default(res, facts)
+    check_cofone(res, facts)
     check_overrides(res, facts, reg)
     # curve table (as in C16) for the numeric discharge
     from rules import c16_curves
